@@ -20,13 +20,18 @@ impl TryFrom<String> for BuildpackApi {
         // If no minor version is specified, it defaults to `0`.
         let (major, minor) = &value.split_once('.').unwrap_or((&value, "0"));
 
+        // Only plain digits are allowed, the integer parser of the standard library would also
+        // accept a leading `+`.
+        let parse_component = |component: &str| {
+            Some(component)
+                .filter(|component| component.bytes().all(|byte| byte.is_ascii_digit()))
+                .and_then(|component| component.parse().ok())
+                .ok_or_else(|| Self::Error::InvalidBuildpackApi(value.clone()))
+        };
+
         Ok(Self {
-            major: major
-                .parse()
-                .map_err(|_| Self::Error::InvalidBuildpackApi(value.clone()))?,
-            minor: minor
-                .parse()
-                .map_err(|_| Self::Error::InvalidBuildpackApi(value.clone()))?,
+            major: parse_component(major)?,
+            minor: parse_component(minor)?,
         })
     }
 }
